@@ -60,3 +60,7 @@ Proof. eexists. split; reflexivity. Qed.
 
 Lemma ex_present : Forall (fun s => present s ex_runs) [2; 0; 1].
 Proof. repeat constructor. Qed.
+
+Lemma ex_order : NoDup [2; 0; 1] /\ Forall (fun s => present s ex_runs) [2; 0; 1] /\
+  Forall2 (fun s t => nth_error ex_tops s = Some t) [2; 0; 1] [topD; topA; topC].
+Proof. split; [repeat constructor; simpl; intuition congruence|split; [exact ex_present|repeat constructor]]. Qed.
